@@ -23,7 +23,7 @@ RULE += "; variant 'shipped': streams that served an earlier replication, were c
 ASSUMPTIONS = ["a seed-table entry means: seed of replication r is table[name][r] (documented: 'indexed on the replication number')",
                "the default fallback updater is SimpleStreamUpdater (documented); bool replication numbers are not judged"]
 
-NAMES = ["default", "", "arrivals", "service", "Ünïcode-ström", "a", "b", "x" * 40, "Default", "stream 1", "1", "nämeΩ"]
+NAMES = ["default", "", "arrivals", "service", "Ünïcode-ström", "a", "b", "x" * 40, "Default", "stream 1", "1", "nämeΩ", "Aa", "BB", "AaAa", "BBBB", "AaBB"]      # (the last five: names whose 31-polynomial hashes collide pairwise / triple-wise)
 SEEDS = [0, 1, 10, 101, -1, -2 ** 40, 2 ** 64 + 3, 999999937]
 BATCH = 25
 
